@@ -853,7 +853,7 @@ pub fn run(ctx: &mut Ctx) {
 	ctx.run_sub(
 		"write_remapped_trees",
 		ctx.tier.pick(3000, 150000),
-		|| (proptest::collection::vec(class_stream(), 1..=3), choices(), proptest::collection::vec(any::<u8>(), 0..120), 0u8..2).prop_map(|(streams, ch, map_stream, input_form)| crate::props::c07::Case { streams, ch, map_stream, input_form }),
+		|| (proptest::collection::vec(class_stream(), 1..=3), choices(), proptest::collection::vec(any::<u8>(), 0..120), 0u8..2).prop_map(|(streams, ch, map_stream, input_form)| crate::props::c07::Case { streams, ch, map_stream, input_form, sigs: 0 }),
 		remapped,
 	);
 	corpus(ctx);
